@@ -422,6 +422,16 @@ def _call_ext(it, name, args, kwargs, node):
         return call_builtin(it, n[9:], args, kwargs, node)
     if n.startswith("torch.nn.functional."):
         f = n.rsplit(".", 1)[1]
+        if f == "kl_div":
+            # kl_div(input = log-probabilities of the model, target = probabilities): sum of target * (log target - input)
+            # (entries with target 0 contribute 0); only reduction="sum" with a probability target is followed
+            inp, tgt = ext_arg(args, kwargs, 0, "input"), ext_arg(args, kwargs, 1, "target")
+            red_, lt_ = kwargs.get("reduction"), kwargs.get("log_target")
+            if (isinstance(inp, VTens) and isinstance(tgt, VTens) and inp.term is not None and tgt.term is not None and isinstance(red_, VConst) and red_.value == "sum"
+                    and (lt_ is None or (isinstance(lt_, VConst) and lt_.value is False))):
+                t_ = T.app("sum", tgt.term * T.app("plog", tgt.term), "all") - T.app("sum", tgt.term * inp.term, "all")
+                return it.fresh(t_, (), "tensor", node)
+            return opaque_tensor(it, n, args, kwargs, node)
         if f == "linear":
             x, W = ext_arg(args, kwargs, 0, "input"), ext_arg(args, kwargs, 1, "weight")
             b = ext_arg(args, kwargs, 2, "bias")
